@@ -27,6 +27,7 @@ type vWorld struct {
 	handlers []vHandlerCall // commands seen by handlers registered with AddCommand
 	probes   []vHandlerCall // calls seen by functions registered with AddFunction
 	pending  chan error     // the channel returned by the "pend" command, if it ran
+	prior    chan error     // a command channel already installed in the pre-state (CMDCHAN)
 	lineCtr  int
 	lines    map[*tree.Statement]string // opaque line statement -> its text
 	waiting  *tree.ShortcutOptionStatement
@@ -332,6 +333,27 @@ func vNewWorld(budget int, allowBad bool) *vWorld {
 		g := w.lastGroup(nOpts, w.choice)
 		dr.lastStatement = g
 		w.waiting = g.ShortcutOptionStatement
+	}
+
+	// ---- a command started earlier: nil | still pending | completed with nil | completed with an error ----
+	if vParam("CMDCHAN", 0) != 0 && w.waiting == nil {
+		switch vChoose("cmdchan", 4) {
+		case 1:
+			w.prior = make(chan error, 1)
+		case 2:
+			w.prior = make(chan error, 1)
+			w.prior <- nil
+		case 3:
+			w.prior = make(chan error, 1)
+			w.prior <- errWaitingForCommandCompletion("earlier command failed")
+		}
+		if w.prior != nil {
+			dr.commandErrChan = w.prior
+		}
+	}
+	// a snapshot taken at an earlier node entry: nil or arbitrary content
+	if vParam("VARSNAP", 0) != 0 && vChoose("varsnap", 2) == 1 {
+		dr.variableSnapshot = map[string]variable.Value{"b0": *variable.NewBoolean(vBool("snap.b0")), "old": *variable.NewNumber(vFloat("snap.old"))}
 	}
 
 	// ---- continuation stack ----
